@@ -271,8 +271,11 @@ check("C09",
       engine="zoo", design="3/C09")
 
 check("C14",
-      passes=[dict(name="C14", src=["harness/C14.cpp"], shared=ZOO, deps=ZOO_DEPS, variant="asan", shards={"quick": 8, "thorough": 16})],
-      rule="under ASan+UBSan (-fno-sanitize-recover): every entry of the factory table x {as built, after its row set its links, "
+      passes=[dict(name="C14", src=["harness/C14.cpp"], shared=ZOO, deps=ZOO_DEPS, variant="asan", shards={"quick": 8, "thorough": 16}),
+              # the same enumeration without the sanitizers: ASan's quarantine keeps freed blocks from being handed out again, so anything that
+              # depends on a new container landing on the address of a dead one (C14-K) can only show with the plain allocator
+              dict(name="C14plain", src=["harness/C14.cpp"], shared=ZOO, deps=ZOO_DEPS, variant="fast", shards={"quick": 8, "thorough": 16})],
+      rule="under ASan+UBSan (-fno-sanitize-recover), and once more with the plain allocator (freed addresses are reused at once): every entry of the factory table x {as built, after its row set its links, "
            "after the table was built twice on the same Lexicon} x EVERY accessor of its interface (primitives, virtual extras, and the "
            "common accessors of Expr/Classic/Type/Directive/Stmt/Decl), 4 (quick) / 12 (thorough) operand rotations; for 45 kinds with "
            "settable links ALL subsets of links set (incl. links to untyped nodes), each on a fresh node; every Sequence reached through "
